@@ -136,7 +136,7 @@ func rwSetup(c rwCaseSpec, opts SchedOpts) (*Controller, *rwOutcome, verifapi.Re
 	ctl.Thread("W", func(*Thread) string {
 		off := 0
 		for _, n := range c.writes {
-			_, err := rw.Write(rwPattern(off, n))
+			_, err := writeScratch(rw, rwPattern(off, n))
 			off += n
 			out.mu.Lock()
 			if err == nil {
